@@ -9,7 +9,6 @@ import (
 	"path/filepath"
 	"strings"
 	"sync"
-	"time"
 
 	"github.com/alpacahq/marketstore/v4/catalog"
 	"github.com/alpacahq/marketstore/v4/executor"
@@ -61,9 +60,12 @@ var c28Roots = []string{"/data/mktsdb", "/tmp/x/", "", "rel/root", "/", "/a/../b
 var c28Names = []string{"Epoch", "Open", "High", "Low", "Close", "Volume", "Bid", "Ask", "Nanoseconds", "x", ""}
 var c28Int64s = []int64{0, 1, -1, 37024, 1 << 31, -(1 << 31), 1<<63 - 1, -1 << 63, 255, 256, 65535, 1 << 32}
 
-func c28Name(r *rng.Rand, boundary bool) []byte {
+func c28Name(r *rng.Rand, boundary bool, thorough int) []byte {
 	if boundary {
-		n := []int{255, 256, 257, 300, 511, 512, 513, 254}[r.Intn(8)]
+		n := []int{255, 256, 257, 300, 256, 257, 511, 254, 512, 513}[r.Intn(8+2*thorough)]
+		if r.Chance(20) {
+			n = []int{127, 128, 129}[r.Intn(3)] // inside the guard: the sign boundary of the length byte
+		}
 		b := make([]byte, n)
 		mode := r.Intn(3)
 		for i := range b {
@@ -86,6 +88,10 @@ func c28Name(r *rng.Rand, boundary bool) []byte {
 
 func c28GenCmd(r *rng.Rand, tier string, class int) c28Cmd {
 	c := c28Cmd{}
+	th := 0
+	if tier == "thorough" {
+		th = 1
+	}
 	switch r.Intn(10) {
 	case 0:
 		c.RT = int(int8(r.U64()))
@@ -94,20 +100,15 @@ func c28GenCmd(r *rng.Rand, tier string, class int) c28Cmd {
 	default:
 		c.RT = r.Intn(2)
 	}
-	switch r.Intn(12) {
-	case 0:
+	switch pk := r.Intn(12); {
+	case class == 3: // path length at the boundary of the int16 length field
+		n := []int{32767, 32768, 40000}[r.Intn(3)]
+		c.Path = bytes.Repeat([]byte("abcdefg/"), n/8+1)[:n]
+	case pk == 0:
 		c.Path = r.Bytes(r.Intn(60))
-	case 1:
-		n := []int{255, 256, 4095, 4096, 5000}[r.Intn(5)]
-		p := bytes.Repeat([]byte("d/"), n/2+1)[:n]
-		c.Path = p
-	case 2:
-		if class == 3 { // path length boundary of the int16 field
-			n := []int{32767, 32768, 40000, 65536 + 5}[r.Intn(4)]
-			c.Path = bytes.Repeat([]byte("abcdefg/"), n/8+1)[:n]
-		} else {
-			c.Path = []byte(c28Paths[r.Intn(len(c28Paths))])
-		}
+	case pk == 1:
+		n := []int{127, 128, 255, 256, 1000, 4095, 4096, 5000}[r.Intn(5+3*th)]
+		c.Path = bytes.Repeat([]byte("d/"), n/2+1)[:n]
 	default:
 		c.Path = []byte(c28Paths[r.Intn(len(c28Paths))])
 	}
@@ -115,7 +116,7 @@ func c28GenCmd(r *rng.Rand, tier string, class int) c28Cmd {
 	case 0:
 		c.VRL = c28Int64s[r.Intn(len(c28Int64s))]
 	case 1:
-		c.VRL = []int64{1<<31 - 1, -(1 << 31), 1 << 31, -(1 << 31) - 1, 1 << 40}[r.Intn(5)]
+		c.VRL = []int64{1<<31 - 1, -(1 << 31), 1 << 31, -(1 << 31) - 1, 1 << 40, 127, 128, 32767, 32768, 65535, 65536, -32769}[r.Intn(12)]
 	default:
 		c.VRL = int64(r.Intn(200))
 	}
@@ -130,22 +131,35 @@ func c28GenCmd(r *rng.Rand, tier string, class int) c28Cmd {
 	dl := r.Intn(65)
 	if r.Chance(10) {
 		dl = 0
-	} else if r.Chance(5) {
-		dl = 1000 + r.Intn(5000)
+	} else if r.Chance(3) {
+		dl = 300 + r.Intn(1200)
+		if tier == "thorough" {
+			dl = 1000 + r.Intn(5000)
+		}
 	}
 	c.Data = r.Bytes(dl)
+	if class == 5 { // payload length at the boundaries of narrower length fields
+		n := []int{32767, 32768, 65535, 65536, 72000, 40000, 127, 128, 255, 256}[r.Intn(10)]
+		c.Data = bytes.Repeat([]byte{byte(1 + r.Intn(255))}, n)
+		if th == 1 && r.Bool() {
+			c.Data = r.Bytes(n)
+		}
+		if r.Bool() && n > 16 { // not one single run
+			c.Data[n/2] ^= 0xff
+		}
+	}
 	ns := 1 + r.Intn(6)
 	boundaryName := -1
 	switch class {
 	case 1: // finding class: a name longer than 255 bytes
 		boundaryName = r.Intn(ns)
 	case 2: // finding class / boundary: number of shapes around 255/256
-		ns = []int{255, 256, 257, 300, 512, 254}[r.Intn(6)]
+		ns = []int{255, 256, 257, 254, 127, 128, 300, 512}[r.Intn(6+2*th)]
 	case 4: // outside the property's domain: no shapes at all
 		ns = 0
 	}
 	for j := 0; j < ns; j++ {
-		s := c28Shape{Name: c28Name(r, j == boundaryName), Type: r.Intn(15)}
+		s := c28Shape{Name: c28Name(r, j == boundaryName, th), Type: r.Intn(15)}
 		if r.Chance(5) {
 			s.Type = r.Intn(256)
 		}
@@ -173,7 +187,7 @@ func c28Gen(r *rng.Rand, i int, tier string) interface{} {
 		nc := 1 + r.Intn(5)
 		wk := r.Intn(10)
 		if wk == 0 {
-			nc = []int{254, 255, 256, 300}[r.Intn(4)] // with Epoch: 255, 256, 257, 301 shapes
+			nc = []int{254, 255, 256}[r.Intn(3)] // with Epoch: 255, 256, 257 shapes
 		}
 		for j := 0; j < nc; j++ {
 			name := []byte(fmt.Sprintf("c%d", j))
@@ -231,12 +245,25 @@ func c28Gen(r *rng.Rand, i int, tier string) interface{} {
 		class = 1
 	case kind < 40:
 		class = 2
-	case kind < 43:
+	case kind < 41:
 		class = 3
-	case kind < 47:
+	case kind < 45:
 		class = 4
+	case kind < 50:
+		class = 5
+	case kind < 52:
+		class = 6
 	}
 	n := r.Intn(maxCmds + 1)
+	if class == 6 { // number of commands around the boundaries of narrower count fields
+		n = []int{127, 128, 255, 256, 257}[r.Intn(5)]
+		for j := 0; j < n; j++ {
+			c := c28Cmd{RT: j & 1, Path: []byte(fmt.Sprintf("s/%d", j)), VRL: int64(j), Off: int64(37024 + 8*j), Idx: int64(j + 1), Data: []byte{byte(j)},
+				Shapes: []c28Shape{{[]byte("Epoch"), 3}}}
+			in.Cmds = append(in.Cmds, c)
+		}
+		return in
+	}
 	if class != 0 && n == 0 {
 		n = 1
 	}
@@ -328,16 +355,33 @@ type c28Obs struct {
 // coqc's number-literal parser overflows its stack on literals of more than ~10^4 digits.
 func c28Hex(b []byte) string {
 	const chunk = 2048
-	if len(b) <= chunk {
-		return "(unhexp " + cq.Hex(b) + ")"
-	}
+	const minRun = 256
 	var parts []string
-	for i := 0; i < len(b); i += chunk {
-		j := i + chunk
-		if j > len(b) {
-			j = len(b)
+	lit := func(x []byte) {
+		for i := 0; i < len(x); i += chunk {
+			j := i + chunk
+			if j > len(x) {
+				j = len(x)
+			}
+			parts = append(parts, "unhexp "+cq.Hex(x[i:j]))
 		}
-		parts = append(parts, "unhexp "+cq.Hex(b[i:j]))
+	}
+	start := 0 // start of the pending literal part
+	for i := 0; i < len(b); {
+		j := i
+		for j < len(b) && b[j] == b[i] {
+			j++
+		}
+		if j-i >= minRun { // long run of one byte value: printed as [repeat], not as digits
+			lit(b[start:i])
+			parts = append(parts, fmt.Sprintf("repeat (byte_of_N %d%%N) (Z.to_nat %d%%Z)", b[i], j-i))
+			start = j
+		}
+		i = j
+	}
+	lit(b[start:])
+	if len(parts) == 0 {
+		return "(unhexp " + cq.Hex(nil) + ")"
 	}
 	return "(" + strings.Join(parts, " ++ ") + ")"
 }
@@ -373,10 +417,7 @@ func c28WriterCmds(w *c28Writer) (cmds []c28Cmd, root string, err error) {
 			err = fmt.Errorf("write path panicked: %v", p)
 		}
 	}()
-	lapT := time.Now()
-	lap := func(k string) { c28T["w:"+k] += time.Since(lapT); lapT = time.Now() }
 	dir, e := catalog.NewDirectory(root)
-	lap("dir")
 	if e != nil && dir == nil {
 		return nil, root, e
 	}
@@ -390,7 +431,6 @@ func c28WriterCmds(w *c28Writer) (cmds []c28Cmd, root string, err error) {
 		return nil, root, e
 	}
 	defer wf.FilePtr.Close()
-	lap("wal")
 	wr, e := executor.NewWriter(dir, wf)
 	if e != nil {
 		return nil, root, e
@@ -417,7 +457,6 @@ func c28WriterCmds(w *c28Writer) (cmds []c28Cmd, root string, err error) {
 	csm.AddColumnSeries(*tbk, cs)
 	var werr error
 	wcs := executor.VerifCaptureWriteCommands(wf, func() { werr = wr.WriteCSM(csm, w.Variable) })
-	lap("write")
 	if werr != nil {
 		return nil, root, fmt.Errorf("WriteCSM rejected the write: %v", werr)
 	}
@@ -432,18 +471,7 @@ func c28WriterCmds(w *c28Writer) (cmds []c28Cmd, root string, err error) {
 	return cmds, root, nil
 }
 
-var c28T = map[string]time.Duration{}
-
 func c28Run(raw json.RawMessage) (res Result, err error) {
-	t0 := time.Now()
-	defer func() {
-		var in c28In
-		json.Unmarshal(raw, &in)
-		c28T[in.Kind] += time.Since(t0)
-		if os.Getenv("C28_PROF") != "" {
-			fmt.Fprintln(os.Stderr, c28T)
-		}
-	}()
 	var in c28In
 	if err = json.Unmarshal(raw, &in); err != nil {
 		return
@@ -521,14 +549,32 @@ func c28Run(raw json.RawMessage) (res Result, err error) {
 	}()
 	var coqW []string
 	if obs.Code == 0 {
-		for _, w := range wts {
+		for i, w := range wts {
 			o := c28WT{RT: int(w.RecordType), Path: []byte(w.FilePath), DataLen: w.DataLen, VRL: w.VarRecLen, Buf: append([]byte{}, w.Buffer...)}
 			for _, ds := range w.DataShapes {
 				o.Shapes = append(o.Shapes, c28Shape{[]byte(ds.Name), int(ds.Type)})
 			}
 			obs.WTs = append(obs.WTs, o)
+			// buffer / shapes identical to input command i's are printed as None (see Corr/C28.v kwt)
+			bufS, shS := cq.Some(c28Hex(o.Buf)), cq.Some(c28Shapes(o.Shapes))
+			if i < len(cmds) && in.Kind != "raw" {
+				c := cmds[i]
+				want := make([]byte, 16, 16+len(c.Data))
+				binary.LittleEndian.PutUint64(want, uint64(c.Off))
+				binary.LittleEndian.PutUint64(want[8:], uint64(c.Idx))
+				if bytes.Equal(append(want, c.Data...), o.Buf) {
+					bufS = "None"
+				}
+				same := len(c.Shapes) == len(o.Shapes)
+				for j := 0; same && j < len(c.Shapes); j++ {
+					same = bytes.Equal(c.Shapes[j].Name, o.Shapes[j].Name) && int(byte(c.Shapes[j].Type)) == o.Shapes[j].Type
+				}
+				if same {
+					shS = "None"
+				}
+			}
 			coqW = append(coqW, cq.Rec(cq.F("kw_rt", cq.Z(int64(o.RT))), cq.F("kw_path", c28Hex(o.Path)), cq.F("kw_datalen", cq.Z(int64(o.DataLen))),
-				cq.F("kw_vrl", cq.Z(int64(o.VRL))), cq.F("kw_buf", c28Hex(o.Buf)), cq.F("kw_shapes", c28Shapes(o.Shapes))))
+				cq.F("kw_vrl", cq.Z(int64(o.VRL))), cq.F("kw_buf", bufS), cq.F("kw_shapes", shS)))
 		}
 	} else {
 		obs.TGID = 0
